@@ -223,4 +223,103 @@ theorem close_events_after_last_release {s : G} (h : Reachable s) {e : Nat} (he 
   obtain ⟨_, _, hh, hr, _⟩ := ent_dying_facts hE hd
   exact ⟨hh, hr⟩
 
+/-! ### whole-call clients (`listeners` lines): the count is the number of remembered references -/
+
+/-- anything every `tstep` preserves holds along whole-call runs -/
+theorem stepOp_preserves (nk : Nat) (P : Sys → Prop) (hP : ∀ y t, P y → P (tstep nk y t)) :
+    ∀ (fuel : Nat) (y : Sys) (t : Nat), P y → P (stepOp nk fuel y t)
+  | 0, _, _, h => h
+  | fuel + 1, y, t, h => by
+    unfold stepOp
+    split
+    · exact h
+    · split
+      · exact h
+      · split
+        · exact hP y t h
+        · split
+          · exact hP y t h
+          · exact stepOp_preserves nk P hP fuel _ t (hP y t h)
+
+theorem runAtomicSys_preserves (nk : Nat) (P : Sys → Prop) (hP : ∀ y t, P y → P (tstep nk y t))
+    (progs : List (List Op)) (sched : List Nat) (h0 : P { g := G.init, threads := progs.map fun p => { prog := p } }) :
+    P (runAtomicSys nk progs sched).1 := by
+  have hstep : ∀ (a : Sys × List String) (t : Nat), P a.1 → P (atomicStep nk a t).1 :=
+    fun a t h => stepOp_preserves nk P hP 24 a.1 t h
+  have hfold : ∀ (sc : List Nat) (a : Sys × List String), P a.1 → P (sc.foldl (atomicStep nk) a).1 := by
+    intro sc
+    induction sc with
+    | nil => intro a h; exact h
+    | cons t ts ih => intro a h; exact ih _ (hstep a t h)
+  have hdrain : ∀ (fuel : Nat) (a : Sys × List String), P a.1 → P (drainAtomic nk fuel a).1 := by
+    intro fuel
+    induction fuel with
+    | zero => intro a h; exact h
+    | succ n ih =>
+      intro a h
+      unfold drainAtomic
+      split
+      · exact h
+      · exact ih _ (hstep a _ h)
+  unfold runAtomicSys
+  exact hdrain _ _ (hfold sched _ h0)
+
+/-- **the count of a key is the number of references the clients remember, whenever no call is in progress.**
+    In any state in which every thread is between two calls (whole-call clients are, after every step), for a
+    clean run: `refs` of the entry in the map = number of `(key, entry)` references in the threads' books —
+    `caddy.ListenerUsage(addr)` is the number of listeners configs have open on the address. -/
+theorem count_is_remembered_references_when_idle {y : Sys} (hs : Sound y) (hr : Reachable y.g)
+    (hidle : ∀ th ∈ y.threads, th.pc = .idle) {k e : Nat} (hp : y.g.pool k = some e) :
+    (y.g.ent e).refs = (holdCount y.threads e : Nat) := by
+  have hi := inv_reachable hr
+  obtain ⟨he, _⟩ := hi.pool k e hp
+  obtain ⟨h1, _⟩ := ent_mapped_refs (hi.ent e he) (inPool_of_pool hi hp)
+  have hz : ∀ p, placeOf (y.g.ent e) p = 0 := by
+    intro p
+    rw [hs.places.count p e he]
+    unfold placeCount
+    apply sum_map_zero
+    intro th hth
+    simp [atPlace, hidle th hth, pcAt]
+  have a := hz .ctor; have b := hz .failing; have c := hz .waiters; have d := hz .lsWaiters
+  simp only [placeOf] at a b c d
+  rw [h1, ← hs.books.count e he]
+  congr 1; omega
+
+/-- … for the whole-call runs of client programs (listener-owning configs: `listenerOp`), no hypothesis left
+    but "every thread is between two calls", which the run checks -/
+theorem listener_usage_is_open_listeners (nk : Nat) (progs : List (List Op)) (sched : List Nat)
+    (hp : ∀ p ∈ progs, NoRawDelete p)
+    (hidle : ∀ th ∈ (runAtomicSys nk progs sched).1.threads, th.pc = .idle) {k e : Nat}
+    (hpool : (runAtomicSys nk progs sched).1.g.pool k = some e) :
+    ((runAtomicSys nk progs sched).1.g.ent e).refs = (holdCount (runAtomicSys nk progs sched).1.threads e : Nat) := by
+  have hall := runAtomicSys_preserves nk (fun y => Sound y ∧ CleanClients y ∧ (y.clean = true → Reachable y.g))
+    (fun y t h => ⟨sound_tstep nk y t h.1, cleanClients_tstep nk y t h.2.1, tstep_reachable nk y t h.2.2⟩)
+    progs sched ⟨by
+      have := sound_runSched nk progs []
+      refine ⟨⟨?_, ?_⟩, ⟨?_, ?_, ?_, mapOk_init⟩, ?_, ?_, rfl⟩
+      · intro e he; exact absurd he (Nat.not_lt_zero _)
+      · intro th hth x hx
+        simp only [List.mem_map] at hth
+        obtain ⟨p, _, rfl⟩ := hth
+        simp at hx
+      · intro p e he; exact absurd he (Nat.not_lt_zero _)
+      · intro th hth p e hpe
+        simp only [List.mem_map] at hth
+        obtain ⟨q, _, rfl⟩ := hth
+        simp [pcAt] at hpe
+      · intro th hth _
+        simp only [List.mem_map] at hth
+        obtain ⟨q, _, rfl⟩ := hth
+        rfl
+      · intro th hth
+        simp only [List.mem_map] at hth
+        obtain ⟨q, _, rfl⟩ := hth
+        simp [PcOk]
+      · intro th hth x hx
+        simp only [List.mem_map] at hth
+        obtain ⟨q, _, rfl⟩ := hth
+        simp at hx, cleanClients_init progs hp, fun _ => reachable_init⟩
+  exact count_is_remembered_references_when_idle hall.1 (hall.2.2 hall.2.1.1) hidle hpool
+
 end CaddyModel.C04
